@@ -366,6 +366,8 @@ def run(m, tier):
     results.append(order_rules.recording_loops_rule(m, "C16.R9"))
     from rules import symtab_interp
     results.append(symtab_interp.run_rule(m, "C16.R10", tier))
+    from rules import prog_rules
+    results.append(prog_rules.symtab_rule(m, "C16.R11", tier))
     expl = ("Decides structural clauses of C16: the set of scoping classes equals the property's list and each opens a block-engine "
             "call site; scope enter/exit pairing on every path (typestate, shared with C09); lookup consults own symbols, used modules "
             "and ancestors only, and a new scope is nested under the current one; an intrinsic reference is produced only after an "
